@@ -4,8 +4,10 @@ Copy a confirmed seeded change from /tmp/mut_<ID>_out into /verif/seeded/<ID>/ w
 (which property, what it needs to manifest, what was run by the lead to confirm it)."""
 import json, os, shutil, sys
 mid, checks, reported = sys.argv[1], sys.argv[2].split(","), sys.argv[3]
-src = "/tmp/mut_%s_out" % mid
-dst = os.path.join(os.path.dirname(os.path.dirname(os.path.abspath(__file__))), "seeded", mid)
+pre = os.environ.get("MUT_PREFIX", "mut")
+src = "/tmp/%s_%s_out" % (pre, mid)
+dst = os.path.join(os.path.dirname(os.path.dirname(os.path.abspath(__file__))), "seeded",
+                   mid if pre == "mut" else "%s_%s" % (mid, pre))
 os.makedirs(dst, exist_ok=True)
 for f in ("patch.diff", "run_demo.sh"):
     shutil.copy(os.path.join(src, f), os.path.join(dst, f))
@@ -20,11 +22,12 @@ meta = {
     "breaks": agent.get("what_breaks", "")[:600],
     "needs_to_manifest": agent.get("needs_to_manifest", ""),
     "produced_by": "independent sub-agent given only the property text and a scratch worktree of /repo",
+    "round": 1 if pre == "mut" else 2,
     "confirmed_by_lead": "tools/confirm_mut.sh %s in the scratch worktree: demonstration run with the patch, the whole "
                          "workspace test suite with the patch (demonstration moved aside), demonstration without the patch" % mid,
     "confirm_log": conf,
-    "what_i_ran": "tools/mutrun.sh /tmp/mut_%s %s %s (the checks against a scratch copy of the harness whose path "
-                  "dependencies point at the patched worktree): %s" % (mid, mid, " ".join(checks), reported),
+    "what_i_ran": "tools/mutrun.sh /tmp/%s_%s %s %s (the checks against a scratch copy of the harness whose path "
+                  "dependencies point at the patched worktree): %s" % (pre, mid, mid, " ".join(checks), reported),
     "caught_by_checks": checks,
     "agent_meta": agent,
 }
